@@ -1158,6 +1158,7 @@ Qed.
 Section Replace.
   Variable H : pystr -> pystr.
   Variable ct : ctable.
+  Variable late : st -> nat -> bool.
 
   Lemma new_kids_upd c ch : new_kids c ch =
     map (fun k => (fst k, (fun n old => match assoc n ch with Some (VKids v) => v | _ => old end) (fst k) (snd k))) (k_kids c).
@@ -1166,9 +1167,18 @@ Section Replace.
     map (fun k => (fst k, (fun n old => match assoc n ch with Some (VProp v) => v | _ => old end) (fst k) (snd k))) (k_props c).
   Proof. unfold new_props. apply map_ext. intros [n v]; simpl. destruct (assoc n ch) as [[| |]|]; auto. Qed.
 
+  (* a dataclasses.replace that returns is exactly one construction that passed its class's validation *)
+  Lemma dc_replace_ok s a ch s' a' c : cell_at s a = Some c -> dc_replace H ct late s a ch = (s', OkNode a') ->
+    alloc H ct s (k_cls c) (new_origin c ch) (new_props c ch) (new_kids c ch) = Some (s', a').
+  Proof.
+    intros Ec. unfold dc_replace. rewrite Ec. destruct (dc_check _ _ _); [discriminate|].
+    destruct (construct _ _ _ _ _ _ _ _) as [s1 a1|s1|] eqn:Eco; try discriminate. intros [= <- <-].
+    now apply construct_ok in Eco as [Ea _].
+  Qed.
+
   (* dataclasses.replace and ASTNode.replace: same class; a changed field holds the given value, every other
      field holds what the original holds (children: the very same addresses) *)
-  Theorem dc_replace_fields s a ch s' a' c : cell_at s a = Some c -> dc_replace H ct s a ch = (s', OkNode a') ->
+  Theorem dc_replace_fields s a ch s' a' c : cell_at s a = Some c -> dc_replace H ct late s a ch = (s', OkNode a') ->
     exists c', cell_at s' a' = Some c' /\ a' = length (heap s) /\ k_cls c' = k_cls c /\
       k_org c' = (match assoc (lit "origin") ch with Some (VOrigin o) => o | _ => k_org c end) /\
       (forall n, assoc n (k_props c') =
@@ -1176,8 +1186,7 @@ Section Replace.
       (forall n, assoc n (k_kids c') =
                  option_map (fun old => match assoc n ch with Some (VKids v) => v | _ => old end) (assoc n (k_kids c))).
   Proof.
-    intros Ec. unfold dc_replace. rewrite Ec. destruct (dc_check _ _ _); [discriminate|].
-    destruct (alloc _ _ _ _ _ _ _) as [[s1 a1]|] eqn:Ea; [|discriminate]. intros [= <- <-].
+    intros Ec Ed. pose proof (dc_replace_ok _ _ _ _ _ _ Ec Ed) as Ea.
     apply alloc_shape in Ea as [i [_ [-> [_ ->]]]].
     eexists. split; [unfold cell_at; simpl; rewrite nth_error_app2, Nat.sub_diag by lia; reflexivity|].
     simpl. repeat split; auto.
@@ -1189,11 +1198,10 @@ Section Replace.
 
   (* dataclasses.replace leaves a registered original registered and the copy gets another id *)
   Theorem dc_replace_keeps_orig s a ch s' a' c : cell_at s a = Some c -> get_any s (k_id c) = Some a ->
-    dc_replace H ct s a ch = (s', OkNode a') ->
+    dc_replace H ct late s a ch = (s', OkNode a') ->
     get_any s' (k_id c) = Some a /\ exists c', cell_at s' a' = Some c' /\ k_id c' <> k_id c /\ get_any s' (k_id c') = Some a'.
   Proof.
-    intros Ec El. unfold dc_replace. rewrite Ec. destruct (dc_check _ _ _); [discriminate|].
-    destruct (alloc _ _ _ _ _ _ _) as [[s1 a1]|] eqn:Ea; [|discriminate]. intros [= <- <-].
+    intros Ec El Ed. pose proof (dc_replace_ok _ _ _ _ _ _ Ec Ed) as Ea.
     apply alloc_shape in Ea as [i [Hi [-> [_ ->]]]]. unfold get_any in *. simpl.
     assert (Hne : i <> k_id c) by congruence.
     split.
@@ -1203,28 +1211,24 @@ Section Replace.
   Qed.
 
   (* ASTNode.replace = unregister the original (if it is registered), then dataclasses.replace *)
-  Theorem replace_is_fresh_construction s a ch s' a' : replace H ct true s a ch = (s', OkNode a') ->
-    dc_replace H ct (fst (detach_self true s a)) a ch = (s', OkNode a').
-  Proof.
-    unfold replace. destruct (cell_at s a) as [c|] eqn:Ec; [|discriminate].
-    destruct (dc_replace H ct (fst (detach_self true s a)) a ch) as [s2 r2] eqn:Ed.
-    destruct r2; try discriminate; auto.
-    destruct (match lookup (k_id c) (reg s) with Some b => _ | None => None end); discriminate.
-  Qed.
+  Theorem replace_is_fresh_construction s a ch s' a' : replace H ct late true s a ch = (s', OkNode a') ->
+    dc_replace H ct late (fst (detach_self true s a)) a ch = (s', OkNode a').
+  Proof. apply replace_ok_is_dc. Qed.
 
-  Lemma dc_replace_ghost s a ch s' a' : dc_replace H ct s a ch = (s', OkNode a') ->
+  Lemma dc_replace_ghost s a ch s' a' : dc_replace H ct late s a ch = (s', OkNode a') ->
     det s' = det s /\ gone s' = gone s /\ vars s' = vars s.
   Proof.
-    unfold dc_replace. destruct (cell_at s a); [|discriminate]. destruct (dc_check _ _ _); [discriminate|].
-    destruct (alloc _ _ _ _ _ _ _) as [[s1 a1]|] eqn:Ea; [|discriminate]. intros [= <- <-].
+    intro Ed. destruct (cell_at s a) as [c|] eqn:Ec; [|unfold dc_replace in Ed; rewrite Ec in Ed; discriminate].
+    pose proof (dc_replace_ok _ _ _ _ _ _ Ec Ed) as Ea.
     apply alloc_shape in Ea as [i [_ [_ [_ ->]]]]. simpl. auto.
   Qed.
 
   Theorem replace_unregisters s a ch s' a' c : Inv0 s -> changes_below (length (heap s)) ch ->
-    cell_at s a = Some c -> replace H ct true s a ch = (s', OkNode a') ->
+    cell_at s a = Some c -> replace H ct late true s a ch = (s', OkNode a') ->
     In a (det s') /\ get_any s' (k_id c) <> Some a.
   Proof.
-    intros Hs Hch Ec Er. pose proof (replace_inv H ct _ _ _ _ _ Hs Hch Er) as Hs'.
+    intros Hs Hch Ec Er. destruct (replace_inv H ct late _ _ _ _ _ Hs Hch Er) as [_ Hok].
+    destruct (Hok a' eq_refl) as [Hs' _].
     apply replace_is_fresh_construction in Er.
     assert (Hd : In a (det (fst (detach_self true s a)))).
     { unfold detach_self. rewrite Ec. destruct (lookup _ _); [destruct (_ && _)|]; simpl; auto. }
@@ -1235,15 +1239,14 @@ Section Replace.
   (* corollary: when the original is registered and carries exactly the digest the new content hashes to
      (only non-comparable fields changed; no twin holds the id), the new node takes over the original's id *)
   Theorem replace_keeps_id s a ch s' a' c : cell_at s a = Some c -> get_any s (k_id c) = Some a ->
-    replace H ct true s a ch = (s', OkNode a') ->
+    replace H ct late true s a ch = (s', OkNode a') ->
     k_id c = H (id_data_of ct current (k_cls c) (new_origin c ch) (new_props c ch) (kd_of (heap s) (new_kids c ch))) ->
     exists c', cell_at s' a' = Some c' /\ k_id c' = k_id c.
   Proof.
     intros Ec El Er Eid. apply replace_is_fresh_construction in Er.
     rewrite (detach_self_registered _ _ _ Ec El) in Er. simpl in Er.
-    unfold dc_replace in Er. unfold cell_at in Er; simpl in Er. fold (cell_at s a) in Er. rewrite Ec in Er.
-    destruct (dc_check _ _ _); [discriminate|].
-    destruct (alloc _ _ _ _ _ _ _) as [[s1 a1]|] eqn:Ea; [|discriminate]. injection Er as <- <-.
+    assert (Ec1 : cell_at (set_reg s (remove_id (k_id c) (reg s)) (a :: det s)) a = Some c) by exact Ec.
+    pose proof (dc_replace_ok _ _ _ _ _ _ Ec1 Er) as Ea.
     destruct (id_deterministic H ct _ _ _ _ _ _ _ Ea) as [cl [Hc Hi]].
     - simpl. rewrite <- Eid. unfold get_any. simpl. apply lookup_remove_same.
     - exists cl. split; auto. rewrite Hi. simpl. now rewrite <- Eid.
@@ -1261,39 +1264,61 @@ Proof. intro E. exists []. now rewrite app_nil_r. Qed.
 Section FrameProofs.
   Variable H : pystr -> pystr.
   Variable ct : ctable.
+  Variable late : st -> nat -> bool.
   Variable fx : bool.
 
   Lemma alloc_hext s c o ps ks s' a : alloc H ct s c o ps ks = Some (s', a) -> hext s s'.
   Proof. intro Ea. apply alloc_shape in Ea as [i [_ [_ [_ ->]]]]. eexists; reflexivity. Qed.
 
-  Lemma dup_hext : forall fuel s a s' a', dup H ct fuel s a = Some (s', a') -> hext s s'.
+  (* whatever state a construction ends in (returned or raised late) *)
+  Definition dstate {A} (d : dres A) (s : st) : st :=
+    match d with DOk s' _ => s' | DLate s' => s' | DFuel => s end.
+
+  Lemma construct_hext s c o ps ks : hext s (dstate (construct H ct late s c o ps ks) s).
   Proof.
-    induction fuel as [|f IH]; simpl; intros s a s' a'; [discriminate|].
-    destruct (cell_at s a) as [c|]; [|discriminate].
-    destruct (mapM_st _ s (k_kids c)) as [[s1 ks']|] eqn:Em; [|discriminate]. intro Ea.
-    assert (H1 : hext s s1).
-    { refine (proj1 (proj2 (mapM_st_spec _ (fun _ => True) hext (fun _ _ => True) hext_refl hext_trans
-                               (fun _ _ _ _ _ => I) _ _ _ _ _ I Em))).
-      intros t k t' y _. destruct (mapM_st (dup H ct f) t (snd (snd k))) as [[t1 l]|] eqn:E1; [|discriminate].
-      intros [= <- <-]. split; auto. split; auto.
-      refine (proj1 (proj2 (mapM_st_spec _ (fun _ => True) hext (fun _ _ => True) hext_refl hext_trans
-                               (fun _ _ _ _ _ => I) _ _ _ _ _ I E1))).
-      intros t2 x t3 y2 _ Ed. split; auto. split; auto. eapply IH; eauto. }
-    eapply hext_trans; eauto. eapply alloc_hext; eauto.
+    unfold construct. destruct (alloc _ _ _ _ _ _ _) as [[s1 a1]|] eqn:Ea; [|apply hext_refl].
+    apply alloc_hext in Ea. destruct (late s1 a1); exact Ea.
   Qed.
 
-  Lemma dc_replace_hext s a ch s' r : dc_replace H ct s a ch = (s', r) -> hext s s'.
+  Lemma mapM_d_hext {A B} (f : st -> A -> dres B) : (forall s x, hext s (dstate (f s x) s)) ->
+    forall l s, hext s (dstate (mapM_d f s l) s).
   Proof.
-    unfold dc_replace. destruct (cell_at s a); [|intros [= <- _]; apply hext_refl].
+    intros Hf. induction l as [|x l IH]; simpl; intro s; [apply hext_refl|].
+    specialize (Hf s x). destruct (f s x) as [s1 y|s1|]; simpl in *; auto.
+    specialize (IH s1). destruct (mapM_d f s1 l) as [s2 ys|s2|]; simpl in *;
+      [eapply hext_trans; eauto|eapply hext_trans; eauto|apply hext_refl].
+  Qed.
+
+  Lemma dup_hext : forall fuel s a, hext s (dstate (dup H ct late fuel s a) s).
+  Proof.
+    induction fuel as [|f IH]; simpl; intros s a; [apply hext_refl|].
+    destruct (cell_at s a) as [c|]; [|apply hext_refl].
+    assert (H1 : hext s (dstate (mapM_d (fun s k => match mapM_d (dup H ct late f) s (snd (snd k)) with
+                                 | DOk s' l => DOk s' (fst k, (fst (snd k), l))
+                                 | DLate s' => DLate s'
+                                 | DFuel => DFuel
+                                 end) s (k_kids c)) s)).
+    { apply mapM_d_hext. intros t k. pose proof (mapM_d_hext (dup H ct late f) (IH) (snd (snd k)) t) as M.
+      destruct (mapM_d (dup H ct late f) t (snd (snd k))); exact M. }
+    destruct (mapM_d _ s (k_kids c)) as [s1 ks'|s1|]; simpl in *; auto.
+    pose proof (construct_hext s1 (k_cls c) (k_org c) (k_props c) ks') as H2.
+    destruct (construct _ _ _ _ _ _ _ _); simpl in *;
+      [eapply hext_trans; eauto|eapply hext_trans; eauto|apply hext_refl].
+  Qed.
+
+  Lemma dc_replace_hext s a ch s' r : dc_replace H ct late s a ch = (s', r) -> hext s s'.
+  Proof.
+    unfold dc_replace. destruct (cell_at s a) as [c|]; [|intros [= <- _]; apply hext_refl].
     destruct (dc_check _ _ _); [intros [= <- _]; apply hext_refl|].
-    destruct (alloc _ _ _ _ _ _ _) as [[s1 a1]|] eqn:Ea; intros [= <- _]; [eapply alloc_hext; eauto|apply hext_refl].
+    pose proof (construct_hext s (k_cls c) (new_origin c ch) (new_props c ch) (new_kids c ch)) as M.
+    destruct (construct _ _ _ _ _ _ _ _) as [s1 a1|s1|]; intros [= <- _]; exact M.
   Qed.
 
-  Lemma replace_hext s a ch s' r : replace H ct fx s a ch = (s', r) -> hext s s'.
+  Lemma replace_hext s a ch s' r : replace H ct late fx s a ch = (s', r) -> hext s s'.
   Proof.
     unfold replace. destruct (cell_at s a) as [c|]; [|intros [= <- _]; apply hext_refl].
     destruct (detach_self_frame fx s a) as [Hh _].
-    destruct (dc_replace H ct (fst (detach_self fx s a)) a ch) as [s2 r2] eqn:Ed.
+    destruct (dc_replace H ct late (fst (detach_self fx s a)) a ch) as [s2 r2] eqn:Ed.
     apply dc_replace_hext in Ed.
     assert (H2 : hext s s2) by (eapply hext_trans; [apply hext_eq; exact Hh|exact Ed]).
     destruct r2; try (intros [= <- _]; exact H2).
@@ -1303,26 +1328,26 @@ Section FrameProofs.
   Lemma bind_hext dst r s : hext s (fst r) -> hext s (fst (bind dst r)).
   Proof. destruct r as [s1 [| a | b | e | | |]]; simpl; auto. Qed.
 
-  Lemma step_hext s o : hext s (fst (step H ct fx s o)).
+  Lemma step_hext s o : hext s (fst (step H ct late fx s o)).
   Proof.
-    unfold step. destruct (step_raw H ct fx s o) as [s' r] eqn:E. simpl.
+    unfold step. destruct (step_raw H ct late fx s o) as [s' r] eqn:E. simpl.
     assert (Hx : hext s s'); [|destruct Hx as [e He]; exists e; exact He].
-    replace s' with (fst (step_raw H ct fx s o)) by now rewrite E. clear E.
+    replace s' with (fst (step_raw H ct late fx s o)) by now rewrite E. clear E.
     destruct o as [dst c og ps ks|dst src|dst src ch|dst src ch|x|x|v|x k]; simpl.
     - destruct (negb _); [apply hext_refl|]. destruct (new_args ct s c ps ks); try apply hext_refl.
-      destruct (alloc H ct s c og ps x) as [[s1 a]|] eqn:Ea; [|apply hext_refl]. simpl.
-      apply alloc_hext in Ea. destruct Ea as [e He]. exists e. exact He.
+      pose proof (construct_hext s c og ps x) as M.
+      destruct (construct H ct late s c og ps x) as [s1 a|s1|]; simpl in *; auto.
     - destruct (negb _); [apply hext_refl|]. destruct (resolve s src) as [a|]; [|apply hext_refl].
-      destruct (dup H ct (length (heap s)) s a) as [[s1 a']|] eqn:Ed; [|apply hext_refl]. simpl.
-      apply dup_hext in Ed. destruct Ed as [e He]. exists e. exact He.
-    - destruct (negb _); [apply hext_refl|]. destruct (resolve s src) as [a|]; [|apply hext_refl].
-      destruct (cell_at s a) as [c|]; [|apply hext_refl].
-      destruct (changes ct s (k_cls c) ch); try apply hext_refl.
-      apply bind_hext. destruct (dc_replace H ct s a x) as [s1 r1] eqn:Ed. eapply dc_replace_hext; eauto.
+      pose proof (dup_hext (length (heap s)) s a) as M.
+      destruct (dup H ct late (length (heap s)) s a) as [s1 a'|s1|]; simpl in *; auto.
     - destruct (negb _); [apply hext_refl|]. destruct (resolve s src) as [a|]; [|apply hext_refl].
       destruct (cell_at s a) as [c|]; [|apply hext_refl].
       destruct (changes ct s (k_cls c) ch); try apply hext_refl.
-      apply bind_hext. destruct (replace H ct fx s a x) as [s1 r1] eqn:Ed. eapply replace_hext; eauto.
+      apply bind_hext. destruct (dc_replace H ct late s a x) as [s1 r1] eqn:Ed. eapply dc_replace_hext; eauto.
+    - destruct (negb _); [apply hext_refl|]. destruct (resolve s src) as [a|]; [|apply hext_refl].
+      destruct (cell_at s a) as [c|]; [|apply hext_refl].
+      destruct (changes ct s (k_cls c) ch); try apply hext_refl.
+      apply bind_hext. destruct (replace H ct late fx s a x) as [s1 r1] eqn:Ed. eapply replace_hext; eauto.
     - destruct (resolve s x) as [a|]; [|apply hext_refl]. simpl. apply hext_eq.
       apply (fold_detach_frame fx (tree_of s a) s).
     - destruct (resolve s x) as [a|]; [|apply hext_refl].
@@ -1332,11 +1357,11 @@ Section FrameProofs.
   Qed.
 
   Theorem heap_frame s o a : a < length (heap s) ->
-    nth_error (heap (fst (step H ct fx s o))) a = nth_error (heap s) a.
+    nth_error (heap (fst (step H ct late fx s o))) a = nth_error (heap s) a.
   Proof. intro Ha. destruct (step_hext s o) as [e ->]. now apply nth_error_app1. Qed.
 
   Theorem run_heap_frame l : forall s a, a < length (heap s) ->
-    nth_error (heap (run H ct fx s l)) a = nth_error (heap s) a.
+    nth_error (heap (run H ct late fx s l)) a = nth_error (heap s) a.
   Proof.
     induction l as [|o l IH]; simpl; auto. intros s a Ha.
     rewrite IH; [now apply heap_frame|]. destruct (step_hext s o) as [e ->]. rewrite app_length. lia.
@@ -1347,25 +1372,28 @@ End FrameProofs.
 Section Fuel.
   Variable H : pystr -> pystr.
   Variable ct : ctable.
+  Variable late : st -> nat -> bool.
 
-  Lemma dc_replace_no_fuel s a ch : snd (dc_replace H ct s a ch) <> FuelOut.
+  Lemma dc_replace_no_fuel s a ch : snd (dc_replace H ct late s a ch) <> FuelOut.
   Proof.
     unfold dc_replace. destruct (cell_at s a); [|discriminate]. destruct (dc_check _ _ _); [discriminate|].
-    destruct (alloc _ _ _ _ _ _ _) as [[s1 a1]|] eqn:Ea; [discriminate|]. exfalso. revert Ea. apply alloc_some.
+    pose proof (construct_no_fuel H ct late s (k_cls c) (new_origin c ch) (new_props c ch) (new_kids c ch)) as M.
+    destruct (construct _ _ _ _ _ _ _ _); try discriminate. congruence.
   Qed.
   Lemma bind_snd dst r : snd r <> FuelOut -> snd (bind dst r) <> FuelOut.
   Proof. destruct r as [s1 [| a | b | e | | |]]; simpl; auto. Qed.
 
-  Theorem step_no_fuel_out s o : RInv s -> snd (step H ct true s o) <> FuelOut.
+  Theorem step_no_fuel_out s o : RInv s -> snd (step H ct late true s o) <> FuelOut.
   Proof.
-    intros [Hs _]. unfold step. destruct (step_raw H ct true s o) as [s' r] eqn:E. simpl.
-    replace r with (snd (step_raw H ct true s o)) by now rewrite E. clear E.
+    intros [Hs _]. unfold step. destruct (step_raw H ct late true s o) as [s' r] eqn:E. simpl.
+    replace r with (snd (step_raw H ct late true s o)) by now rewrite E. clear E.
     destruct o as [dst c og ps ks|dst src|dst src ch|dst src ch|x|x|v|x k]; simpl.
     - destruct (negb _); [discriminate|]. destruct (new_args ct s c ps ks); try discriminate.
-      destruct (alloc H ct s c og ps x) as [[s1 a]|] eqn:Ea; [discriminate|]. exfalso. revert Ea. apply alloc_some.
+      pose proof (construct_no_fuel H ct late s c og ps x) as M.
+      destruct (construct H ct late s c og ps x); try discriminate. congruence.
     - destruct (negb _); [discriminate|]. destruct (resolve s src) as [a|] eqn:Er; [|discriminate].
-      destruct (dup H ct (length (heap s)) s a) as [[s1 a']|] eqn:Ed; [discriminate|].
-      exfalso. revert Ed. apply dup_never_out_of_fuel; auto. eapply resolve_lt; eauto.
+      pose proof (dup_never_out_of_fuel H ct late s a Hs (resolve_lt _ _ _ Er)) as M.
+      destruct (dup H ct late (length (heap s)) s a); try discriminate. congruence.
     - destruct (negb _); [discriminate|]. destruct (resolve s src) as [a|]; [|discriminate].
       destruct (cell_at s a) as [c|]; [|discriminate]. destruct (changes ct s (k_cls c) ch); try discriminate.
       apply bind_snd. apply dc_replace_no_fuel.
@@ -1373,7 +1401,7 @@ Section Fuel.
       destruct (cell_at s a) as [c|] eqn:Ec; [|discriminate]. destruct (changes ct s (k_cls c) ch); try discriminate.
       apply bind_snd. unfold replace. rewrite Ec.
       pose proof (dc_replace_no_fuel (fst (detach_self true s a)) a x) as Hn.
-      destruct (dc_replace H ct (fst (detach_self true s a)) a x) as [s2 r2]. simpl in Hn.
+      destruct (dc_replace H ct late (fst (detach_self true s a)) a x) as [s2 r2]. simpl in Hn.
       destruct r2; try discriminate; auto.
       destruct (match lookup (k_id c) (reg s) with Some b => _ | None => None end); discriminate.
     - destruct (resolve s x); discriminate.
@@ -1397,7 +1425,7 @@ Definition ex_ops : list op :=
    DetachSelf (0, 0); Drop 1].
 (* a one-character "digest": plenty of collisions *)
 Definition ex_H (s : pystr) : pystr := firstn 1 (rev s).
-Definition ex_state : st := run ex_H ex_ct true (init_st 4) ex_ops.
+Definition ex_state : st := run ex_H ex_ct no_late true (init_st 4) ex_ops.
 
 Lemma ex_state_inv : RInv ex_state.
 Proof. apply run_inv. apply inv_init. Qed.
